@@ -53,7 +53,7 @@ Proof.
     + left. unfold alen in *. rewrite E in *. cbn [closed opn]. lia.
 Qed.
 
-Lemma gap_false_slice cap a st s : repr a st -> opn a = None -> (1 <= length s <= 63)%nat ->
+Lemma gap_false_slice cap a st (s : bytes) : repr a st -> opn a = None -> (1 <= length s <= 63)%nat ->
   (alen a + length s = 254)%nat -> fits cap a (S (length s)) = true ->
   new_label_at_254 cap st (length s) = true.
 Proof.
@@ -282,30 +282,43 @@ Proof.
   - destruct (end_ok a st Hw Hr) as (st1 & E1 & Hr1). unfold b_into_name. rewrite E1.
     rewrite (raw_append_fits cap (aend a)) by (apply repr_len; exact Hr1).
     unfold fits. rewrite alen_aend. cbn [length]. unfold into_name_root.
-    unfold repr in Hr1. rewrite opn_aend in Hr1. subst st1. reflexivity.
+    unfold repr in Hr1. rewrite opn_aend in Hr1. subst st1.
+    destruct (match cap with Some c => (alen a + 1 <=? c)%nat | None => true end); reflexivity.
   - rewrite <- (app_nil_r (wire_abs _)). apply decode_wire_abs. exact Hf.
 Qed.
 
-Lemma compose_labels_snd c nm : forall b, Forall (fun l => (length l < 256)%nat) nm ->
+Lemma compose_labels_snd0 c nm : forall b, (length b <= c)%nat -> Forall (fun l => (length l < 256)%nat) nm ->
   compose_labels (Some c) b nm =
   if (length b + wire_len nm <=? c)%nat then (b ++ wire_rel nm, true)
   else (fst (compose_labels (Some c) b nm), false).
 Proof.
-  induction nm as [|l nm IH]; intros b Hv.
+  induction nm as [|l nm IH]; intros b Hb Hv.
   - cbn [compose_labels wire_len]. rewrite app_nil_r.
-    destruct (length b + 0 <=? c)%nat; reflexivity.
+    destruct (Nat.leb_spec (length b + 0) c); [reflexivity|lia].
   - inversion Hv as [|? ? Hl Hv']; subst. cbn [compose_labels wire_len].
     unfold compose_label, raw_append. cbn [length].
     destruct (Nat.leb_spec (length b + 1) c).
     + rewrite app_length. cbn [length].
       destruct (Nat.leb_spec (length b + 1 + length l) c).
-      * rewrite IH by assumption. rewrite !app_length. cbn [length].
+      * rewrite IH by (try assumption; rewrite !app_length; cbn [length]; lia). rewrite !app_length. cbn [length].
         replace (length b + 1 + length l + wire_len nm)%nat with (length b + (S (length l) + wire_len nm))%nat by lia.
         destruct (length b + (S (length l) + wire_len nm) <=? c)%nat; [|reflexivity].
         f_equal. unfold wire_rel. cbn [map concat]. unfold wire_label.
         rewrite N.mod_small by lia. rewrite <- !app_assoc. reflexivity.
       * destruct (Nat.leb_spec (length b + (S (length l) + wire_len nm)) c); [lia|reflexivity].
     + destruct (Nat.leb_spec (length b + (S (length l) + wire_len nm)) c); [lia|reflexivity].
+Qed.
+
+Lemma compose_labels_snd c nm b : nm <> [] -> Forall (fun l => (length l < 256)%nat) nm ->
+  compose_labels (Some c) b nm =
+  if (length b + wire_len nm <=? c)%nat then (b ++ wire_rel nm, true)
+  else (fst (compose_labels (Some c) b nm), false).
+Proof.
+  intros Hne Hv. destruct (Nat.le_gt_cases (length b) c) as [Hb|Hb]; [apply compose_labels_snd0; assumption|].
+  destruct nm as [|l nm]; [contradiction|]. cbn [compose_labels wire_len].
+  unfold compose_label, raw_append. cbn [length].
+  destruct (Nat.leb_spec (length b + 1) c); [lia|].
+  destruct (Nat.leb_spec (length b + (S (length l) + wire_len nm)) c); [lia|reflexivity].
 Qed.
 
 Lemma compose_labels_none nm : forall b, Forall (fun l => (length l < 256)%nat) nm ->
@@ -351,7 +364,7 @@ Proof.
     unfold repr in Hr1. rewrite opn_aend in Hr1. subst st1. cbn [buf] in *.
     unfold wire_abs at 1. rewrite wire_rel_app, <- app_assoc. fold (wire_abs og). rewrite <- O2.
     destruct cap as [c|].
-    + rewrite compose_labels_snd by exact O1. rewrite Hlen, O3. unfold fits.
+    + rewrite compose_labels_snd by (try exact O1; destruct og; discriminate). rewrite Hlen, O3. unfold fits.
       replace (alen a + S (wire_len og))%nat with (alen a + (wire_len og + 1))%nat by lia.
       destruct (alen a + (wire_len og + 1) <=? c)%nat; reflexivity.
     + rewrite compose_labels_none by exact O1. reflexivity.
@@ -410,7 +423,7 @@ Proof.
     - repeat constructor. }
   eexists. split; [vm_compute; reflexivity|]. split; [vm_compute; reflexivity|]. split.
   - intros n [_ Hl] He. apply (f_equal (@length N)) in He. rewrite wire_rel_length in He.
-    vm_compute in He. lia.
+    match type of He with ?L = _ => assert (HL : L = 255%nat) by (vm_compute; reflexivity) end. lia.
   - eexists. split; vm_compute; reflexivity.
 Qed.
 
